@@ -223,7 +223,9 @@ CLOSE = {
     'src': {'file': TD, 'kind': 'fn', 'name': 'on_did_close_document'},
     'rules': HANDLER_RULES + [
         'letchain-nest',
-        ('c24-shared-state', {'calls': (('analysis', 'get_file_id'), ('mut_analysis', 'remove_file_by_uri'), ('mut_analysis', 'update_file_by_uri'))}), 'c24-ghost-param'],
+        ('c24-shared-state', {'calls': (('analysis', 'get_file_id'), ('mut_analysis', 'get_file_id'), ('mut_analysis', 'remove_file_by_uri'),
+                                        ('mut_analysis', 'update_file_by_uri'))}),
+        ('write-guard-deref', {'optional': True}), 'c24-ghost-param'],
     'attrs': SPIN,
     'ret': 'r',
     'ensures': '''
@@ -292,6 +294,12 @@ CAPS = {
 
 _E = {r[0]: r for r in _c24.UNIT['extra_rules']}
 
+# shared with unit c29_reload (which imports it): a `&self` method or a field of the analysis reached THROUGH the write guard
+WRITE_GUARD_DEREF = ('write-guard-deref', r'\bmut_analysis(\s*)\.(compilation\b|get_file_id\()', r'mut_analysis.vx_deref()\1.\2',
+                     'G.compilation / G.get_file_id(..) on the RwLockWriteGuard G of the analysis -> G.vx_deref().compilation / G.vx_deref().get_file_id(..): '
+                     'the auto-deref of the method / field access made explicit (std: Deref for RwLockWriteGuard<T> returns the &T behind the lock); '
+                     'vx_deref is an opaque shim returning &EmmyLuaAnalysis, whose read-side shims (get_file_id, compilation) are the ones the read guard uses')
+
 UNIT = {
     'items': {
         'ServerContext': {'src': {'file': CTX, 'kind': 'struct', 'name': 'ServerContext'}, 'rules': [('struct-fields', {'keep': ['inner']})]},
@@ -310,7 +318,7 @@ UNIT = {
         'TextDocumentCapabilities::register_capabilities': CAPS,
     },
     'extra_rules': [
-        _E['c24-error-type-opaque'], _E['c24-log-drop'],
+        _E['c24-error-type-opaque'], _E['c24-log-drop'], WRITE_GUARD_DEREF,
         ('c27-unnamed-param', r'\(server_capabilities: &mut ServerCapabilities, _: &ClientCapabilities\)',
          '(server_capabilities: &mut ServerCapabilities, _client_capabilities: &ClientCapabilities)',
          'the unused parameter `_` gets a name (a wildcard parameter pattern binds nothing; naming it changes nothing)'),
